@@ -28,6 +28,7 @@ type Script struct {
 	Sync   bool       `json:"sync"`
 	Free   bool       `json:"free"`
 	Seed   int64      `json:"seed"`
+	Wrap   int        `json:"wrap"` // with Sync: 0 one shared SyncWriter; 1 odd goroutines / 2 all goroutines log through SyncWriter(shared)
 }
 
 type ev map[string]interface{}
@@ -115,7 +116,7 @@ func (w *recW) Write(p []byte) (int, error) {
 func play(sc Script) bool {
 	vsched.Reset()
 	vsync.PoolGates = true
-	emit(ev{"a": "Reset", "id": sc.ID, "sync": sc.Sync, "G": len(sc.Shapes)})
+	emit(ev{"a": "Reset", "id": sc.ID, "sync": sc.Sync, "wrap": sc.Wrap, "G": len(sc.Shapes)})
 	w := &recW{expect: map[string][]byte{}}
 	mk := func(dst io.Writer) []*zerolog.Logger {
 		base := zerolog.New(dst)
@@ -146,6 +147,15 @@ func play(sc Script) bool {
 		dst = zerolog.SyncWriter(w)
 	}
 	loggers := mk(dst)
+	// the same destination reached through further SyncWriter wrappers built around the shared one: goroutines that log
+	// through different wrappers must still never be inside the destination's Write together
+	if sc.Sync && sc.Wrap > 0 {
+		for g := range sc.Shapes {
+			if sc.Wrap == 2 || g%2 == 1 {
+				loggers[g] = mk(zerolog.SyncWriter(dst))[g]
+			}
+		}
+	}
 	gs := map[string]*vsched.G{}
 	var names []string
 	for g := range sc.Shapes {
